@@ -136,7 +136,7 @@ class MNewton:
             def d2f(x):
                 return self.ctx.diff(df, x)
         else:
-            d2f = kwargs['df']
+            d2f = kwargs['d2f']
         self.d2f = d2f
 
     def __iter__(self):
@@ -150,6 +150,9 @@ class MNewton:
             if fx == 0:
                 break
             dfx = df(x)
+            if dfx == 0:
+                # f' vanishes to working accuracy (multiple root reached)
+                break
             d2fx = d2f(x)
             # x = x - F(x)/F'(x) with F(x) = f(x)/f'(x)
             x -= fx / (dfx - fx * d2fx / dfx)
@@ -193,7 +196,7 @@ class Halley:
             def d2f(x):
                 return self.ctx.diff(df, x)
         else:
-            d2f = kwargs['df']
+            d2f = kwargs['d2f']
         self.d2f = d2f
 
     def __iter__(self):
